@@ -103,4 +103,4 @@ def project(script, i, o):
     if n[0] == "raw":
         return ("R", "unparseable")
     # drop the payload bytes: C04 is about framing
-    return ("R", len(o.reply)) + tuple(x if not isinstance(x, (bytes, bytearray)) or len(x) <= 16 else len(x) for x in n)
+    return ("R", len(o.reply) - net.tcp_optlen(o.reply)) + tuple(x if not isinstance(x, (bytes, bytearray)) or len(x) <= 16 else len(x) for x in n)
